@@ -23,7 +23,21 @@ let z_of_string (s : string) : z =
 let string_of_z (x : z) : string =
   match x with Z0 -> "0" | Zpos p -> decimal_of_pos p | Zneg p -> "-" ^ decimal_of_pos p
 let hexs (l : n list) : string = String.concat "" (List.map (fun x -> Printf.sprintf "%02x" (int_of_n x)) l)
+let sval_of_scalar_token (t : string) : sval =
+  let r = String.sub t 1 (String.length t - 1) in
+  match t.[0] with
+  | 'i' | 'u' -> SInt (z_of_string r)
+  | 's' -> SStr (if r = "-" then [] else bytes_of_hex r)
+  | 'b' -> SBool (r = "1")
+  | _ -> failwith "bad scalar"
 let value_of_token (t : string) : value =
+  if String.length t > 0 && t.[0] = 'o' then begin
+    if t = "o-" then VObj [] else
+    VObj (List.map (fun kv ->
+        let i = String.index kv '=' in
+        (intern (String.sub kv 0 i), sval_of_scalar_token (String.sub kv (i + 1) (String.length kv - i - 1))))
+        (String.split_on_char ';' (String.sub t 1 (String.length t - 1))))
+  end else
   let r = String.sub t 1 (String.length t - 1) in
   match t.[0] with
   | 'i' -> VInt (z_of_string r)
@@ -40,6 +54,11 @@ let token_of_value = function
   | VStr l -> "s" ^ hexs l
   | VBool b -> if b then "b1" else "b0"
   | VPtr -> "p"
+  | VObj [] -> "o-"
+  | VObj fs ->
+    "o" ^ String.concat ";" (List.sort compare (List.map (fun (f, v) ->
+        seg_name f ^ "=" ^ (match v with SInt x -> "i" ^ string_of_z x | SStr l -> "s" ^ hexs l
+                                        | SBool b -> if b then "b1" else "b0" | SList _ -> "l?")) fs))
   | VList [] -> "l-"
   | VList l -> "l" ^ String.concat ":" (List.map hexs l)
 let token_of_sval = function
@@ -100,7 +119,7 @@ let show_ev = function
   | EFrrReload -> "F:reload"
 let csv_nats (s : string) : nat list =
   if s = "-" then [] else List.map (fun x -> nat_of_int (int_of_string x)) (String.split_on_char ',' s)
-let kind_of = function "E" -> KEntry | "L" -> KList | "A" -> KAny | "I" -> KInt | "U" -> KU32 | "S" -> KStr | "B" -> KBool | "N" -> KInternal | _ -> failwith "kind"
+let kind_of = function "O" -> KObj | "E" -> KEntry | "L" -> KList | "A" -> KAny | "I" -> KInt | "U" -> KU32 | "S" -> KStr | "B" -> KBool | "N" -> KInternal | _ -> failwith "kind"
 (* concurrent mode: search for a sequential order of the threads' operations that explains every
    observed result and the final state (linearizability w.r.t. the model) *)
 let run_conc (var : variant) reg g init_st (f : string array) (p0 : int) (impl : string) : string =
@@ -200,7 +219,7 @@ let store_of_entries (txt : string) : store =
             let pth = path_of_string (String.sub e 0 i) and v = String.sub e (i + 1) (String.length e - i - 1) in
             let sv = (match value_of_token v with
                 | VInt z -> SInt z | VU32 z -> SInt z | VStr l -> SStr l | VBool b -> SBool b | VList l -> SList l
-                | VPtr -> failwith "ptr leaf") in
+                | VPtr | VObj _ -> failwith "ptr leaf") in
             lv := (pth, sv) :: !lv
           end
         end) (String.split_on_char ',' txt);
